@@ -1,6 +1,7 @@
 #include <nano/dataset.h>
 #include <nano/gboost/util.h>
 #include <numeric>
+#include <nano/verif.h>
 
 using namespace nano;
 
@@ -41,6 +42,7 @@ scalar_t gboost::tune_shrinkage(const targets_iterator_t& iterator, const loss_t
                       { loss.value(targets, selected_outputs.slice(range), values.slice(range)); });
 
         const auto value = values.mean();
+        NANO_VERIF_TRACE("gboost.tune.value", shrinkage, value);
         if (value < best_value)
         {
             best_value     = value;
@@ -50,6 +52,7 @@ scalar_t gboost::tune_shrinkage(const targets_iterator_t& iterator, const loss_t
         selected_outputs.array() -= shrinkage * selected_woutputs.array();
     }
 
+    NANO_VERIF_TRACE("gboost.tune.best", best_shrinkage, best_value);
     return best_shrinkage;
 }
 
